@@ -179,8 +179,12 @@ def load_basic_bindings() -> KeyBindings:
     # should delete using [^a-zA-Z0-9] as a boundary.
     handle("c-w", filter=insert_mode)(get_by_name("unix-word-rubout"))
 
-    handle("pageup", filter=~has_selection)(get_by_name("previous-history"))
-    handle("pagedown", filter=~has_selection)(get_by_name("next-history"))
+    handle("pageup", filter=~has_selection & ~vi_insert_multiple_mode)(
+        get_by_name("previous-history")
+    )
+    handle("pagedown", filter=~has_selection & ~vi_insert_multiple_mode)(
+        get_by_name("next-history")
+    )
 
     # CTRL keys.
 
